@@ -156,8 +156,15 @@ def _random_boundary_points_if_n_eq_1(main_domain, domain_a, domain_b, params, d
     final_points = torch.zeros((num_of_params, main_domain.dim + 1), device=device)
     found_valid = torch.zeros((num_of_params, 1), dtype=bool, device=device)
     boundaries = [domain_a.boundary, domain_b.boundary]
-    use_b = False
+    # choose the boundary to sample on at random, weighted by the boundary sizes.
+    # (Always starting on a would never propose points of b for rows that
+    # already found a valid point on a, and nested operations would only
+    # ever see the boundary of a.)
+    a_volume = boundaries[0].volume(params, device=device)
+    b_volume = boundaries[1].volume(params, device=device)
+    b_ratio = torch.mean(b_volume / (a_volume + b_volume))
     while not all(found_valid):
+        use_b = bool(torch.rand(1, device=device) < b_ratio)
         new_points = boundaries[use_b].sample_random_uniform(
             n=1, params=params, device=device
         )
@@ -166,7 +173,6 @@ def _random_boundary_points_if_n_eq_1(main_domain, domain_a, domain_b, params, d
         index_valid = torch.where(index_valid)[0]
         found_valid[index_valid] = True
         final_points[index_valid] = new_points.as_tensor[index_valid]
-        use_b = not use_b
     return Points(final_points, main_domain.space)
 
 
